@@ -51,6 +51,24 @@ class A(Adapter):
                 out.append(Config(f"knapsack-q16-n{n}-{'dense' if dense else 'sparse'}", buildq,
                                   {"dense": dense, "f32": True, "budget": rat(b), "tol": rat(1e-4), "num_items": n},
                                   dense=dense, n=n, budget=b, partner=partnerq))
+        # near-exact fits: weights k/16 + e/2^14 with e in {-1, 0, 1}; all sums are exact in float32, so the budget test is decided
+        # without any tolerance (an item 2^-14 heavier than what is left does NOT fit, one 2^-14 lighter does)
+        class NearFit(RandomGenerator):
+            def __call__(self, key):
+                import jax
+                s = super().__call__(key)
+                e = jax.random.randint(jax.random.fold_in(key, 7), s.weights.shape, -1, 2)
+                return s.replace(weights=jnp.clip(jnp.ceil(s.weights * 16), 1, 15) / 16 + e / 16384.0)
+
+        for n, b in [(8, 1.5), (12, 2.0)]:
+            for dense in (True, False):
+                def buildn(n=n, b=b, dense=dense):
+                    return Knapsack(generator=NearFit(num_items=n, total_budget=b), reward_fn=DenseReward() if dense else SparseReward())
+                def partnern(n=n, b=b, dense=dense):
+                    return Knapsack(generator=NearFit(num_items=n, total_budget=b), reward_fn=SparseReward() if dense else DenseReward())
+                out.append(Config(f"knapsack-nearfit-n{n}-{'dense' if dense else 'sparse'}", buildn,
+                                  {"dense": dense, "f32": True, "budget": rat(b), "tol": rat(0.0), "num_items": n},
+                                  dense=dense, n=n, budget=b, partner=partnern))
         return out
 
     def ser_state(self, env, s):
